@@ -410,10 +410,10 @@ unit(id="ifelse.recreate", src=CF + "if_else.rs", path=[("impl", "Recreate for I
      stubs=["iws.recreate"],
      ensures=[
          ("ifelse.recreate.condition_error_stops", ["C04"], f"{RC} is Err ==> r == Err::<Instruction, ExecError>({RC}->Err_0)"),
-         ("ifelse.recreate.constant_true_keeps_first_branch_only", ["C04"],
+         ("ifelse.recreate.constant_true_keeps_first_branch_only", ["C04", "C12"],
           f"{RC} == Ok::<Instruction, ExecError>(Instruction::Variable(Variable::Bool(true))) ==> "
           f"r == rec_res(self.if_true.instruction, {RC_ST}) && {RS9} == rec_st(self.if_true.instruction, {RC_ST})"),
-         ("ifelse.recreate.constant_false_keeps_second_branch_only", ["C04"],
+         ("ifelse.recreate.constant_false_keeps_second_branch_only", ["C04", "C12"],
           f"{RC} == Ok::<Instruction, ExecError>(Instruction::Variable(Variable::Bool(false))) ==> "
           f"r == rec_res(self.if_false.instruction, {RC_ST}) && {RS9} == rec_st(self.if_false.instruction, {RC_ST})"),
          ("ifelse.recreate.non_constant_keeps_both_branches", ["C04"],
@@ -658,7 +658,7 @@ _BR = f"rseq_res(self.instructions@, lv_layer({RS0}), 0, Seq::empty())"
 unit(id="block.recreate", src="src/instruction/block.rs", path=[("impl", "Recreate for Block"), ("fn", "recreate")], impl="Block",
      ensures=[
          ("block.recreate.bindings_do_not_leak_out_of_the_block", ["C04"], f"{RS9} == {RS0}"),
-         ("block.recreate.statements_recreated_in_a_new_layer", ["C04"],
+         ("block.recreate.statements_recreated_in_a_new_layer", ["C04", "C12"],
           f"(match {_BR} {{ Err(e) => r == Err::<Instruction, ExecError>(e), "
           f"Ok(is) => r is Ok && r->Ok_0 is Block && r->Ok_0->Block_0.instructions@.len() == is.len() "
           f"&& (forall|i: int| 0 <= i < is.len() ==> r->Ok_0->Block_0.instructions@[i].instruction == is[i]) }})"),
